@@ -56,29 +56,29 @@ type DecisionJ struct {
 }
 
 type C11Run struct {
-	Seed        uint64      `json:"run_seed"`
-	Source      string      `json:"source"`
-	Schema      NamedText   `json:"schema"`
-	Tasks       []C11Task   `json:"tasks"`
-	Strategy    string      `json:"strategy"` // sequential | random | pct | burst | explicit
-	SwitchBits  int         `json:"switch_bits,omitempty"`
-	SiteMask    int         `json:"site_mask"`
-	PCT         []uint64    `json:"pct_changes,omitempty"`
-	BurstTask   int32       `json:"burst_task,omitempty"`
-	BurstYield  uint64      `json:"burst_yield,omitempty"`
-	Faults      []FaultJ    `json:"faults,omitempty"`
-	SampleBits  int         `json:"sample_bits,omitempty"` // 0 = no sampling
-	OrderMix    string      `json:"order_mix"`
-	Weights     [5]uint8    `json:"order_weights"`
-	Explicit    []DecisionJ `json:"schedule,omitempty"`
-	NoSentinel  bool        `json:"no_sentinel,omitempty"`
+	Seed       uint64      `json:"run_seed"`
+	Source     string      `json:"source"`
+	Schema     NamedText   `json:"schema"`
+	Tasks      []C11Task   `json:"tasks"`
+	Strategy   string      `json:"strategy"` // sequential | random | pct | burst | explicit
+	SwitchBits int         `json:"switch_bits,omitempty"`
+	SiteMask   int         `json:"site_mask"`
+	PCT        []uint64    `json:"pct_changes,omitempty"`
+	BurstTask  int32       `json:"burst_task,omitempty"`
+	BurstYield uint64      `json:"burst_yield,omitempty"`
+	Faults     []FaultJ    `json:"faults,omitempty"`
+	SampleBits int         `json:"sample_bits,omitempty"` // 0 = no sampling
+	OrderMix   string      `json:"order_mix"`
+	Weights    [5]uint8    `json:"order_weights"`
+	Explicit   []DecisionJ `json:"schedule,omitempty"`
+	NoSentinel bool        `json:"no_sentinel,omitempty"`
 	// ConcurrentFirst: the simulated concurrent phase is the first use of the
 	// library's validation/coercion/formatting code in this process (the solo
 	// reference executions run afterwards). Cold runs execute in a fresh child
 	// process, so lazily initialised package-level state is still cold when the
 	// tasks meet it.
-	ConcurrentFirst bool `json:"concurrent_first,omitempty"`
-	YieldBudget uint64      `json:"yield_budget,omitempty"`
+	ConcurrentFirst bool   `json:"concurrent_first,omitempty"`
+	YieldBudget     uint64 `json:"yield_budget,omitempty"`
 }
 
 var stratIDs = map[string]int{"sequential": verifsim.StratSequential, "random": verifsim.StratRandom, "pct": verifsim.StratPCT, "burst": verifsim.StratBurst, "explicit": verifsim.StratExplicit}
@@ -407,29 +407,29 @@ type C11Violation struct {
 }
 
 type runResult struct {
-	Violations []C11Violation `json:"violations"`
-	Decisions  []DecisionJ    `json:"decisions"` // the schedule as executed
-	Steps      uint64         `json:"steps"`
-	Switches   uint64         `json:"switches"`
-	Preempts   int            `json:"preemptions"` // switches at library yield points
-	Aborts     int            `json:"aborts"`
-	Stalls     int            `json:"stalls"`
-	Samples    int            `json:"samples"`
-	WriterSw   int            `json:"writer_switches"`
-	OpsDone    int            `json:"ops_done"`
-	OpsAborted int            `json:"ops_aborted"`
-	OpsOverBudget int         `json:"ops_over_yield_budget"`
-	OpsCmp     int            `json:"ops_compared"`
-	Snapshots  int            `json:"snapshots"`
-	SchedHash  uint64         `json:"sched_hash"`
-	PathHash   uint64         `json:"path_hash"`
-	Overlaps   map[string]int `json:"overlaps,omitempty"`
-	SitePairs  []uint64       `json:"site_pairs,omitempty"`
-	OverBudget bool           `json:"over_budget"`
-	SchemaErr  string         `json:"schema_error,omitempty"`
-	ResultHash uint64         `json:"result_hash"`
-	RaceText   string         `json:"-"`
-	EvLog      []string       `json:"evlog,omitempty"`
+	Violations    []C11Violation `json:"violations"`
+	Decisions     []DecisionJ    `json:"decisions"` // the schedule as executed
+	Steps         uint64         `json:"steps"`
+	Switches      uint64         `json:"switches"`
+	Preempts      int            `json:"preemptions"` // switches at library yield points
+	Aborts        int            `json:"aborts"`
+	Stalls        int            `json:"stalls"`
+	Samples       int            `json:"samples"`
+	WriterSw      int            `json:"writer_switches"`
+	OpsDone       int            `json:"ops_done"`
+	OpsAborted    int            `json:"ops_aborted"`
+	OpsOverBudget int            `json:"ops_over_yield_budget"`
+	OpsCmp        int            `json:"ops_compared"`
+	Snapshots     int            `json:"snapshots"`
+	SchedHash     uint64         `json:"sched_hash"`
+	PathHash      uint64         `json:"path_hash"`
+	Overlaps      map[string]int `json:"overlaps,omitempty"`
+	SitePairs     []uint64       `json:"site_pairs,omitempty"`
+	OverBudget    bool           `json:"over_budget"`
+	SchemaErr     string         `json:"schema_error,omitempty"`
+	ResultHash    uint64         `json:"result_hash"`
+	RaceText      string         `json:"-"`
+	EvLog         []string       `json:"evlog,omitempty"`
 }
 
 type raceLog struct {
@@ -448,6 +448,17 @@ func (r *raceLog) readNew() string {
 	s := string(b[r.off:])
 	r.off = int64(len(b))
 	return s
+}
+
+// resultFunc: harness functions that only ever touch values a library call
+// returned to the calling task (rendering them, scribbling on them).
+func resultFunc(fn string) bool {
+	for _, n := range []string{"gen.scribble", "gen.Scribble", "gen.ScribbleExcept", "gen.collectContainers", "gen.RenderValue", "gen.RenderArgMaps", "gen.argSelections", "gen.argDirectives", "main.renderHelpers"} {
+		if strings.HasSuffix(fn, "/"+n) || strings.HasSuffix(fn, n) {
+			return true
+		}
+	}
+	return false
 }
 
 func libFrame(fn string) bool {
@@ -516,7 +527,35 @@ func raceClasses(text string) (classes []string, harnessOnly int) {
 			}
 		}
 		if !lib {
-			harnessOnly++
+			// No library frame. Tasks own every buffer the harness gives them, so
+			// the only memory two tasks can both reach through the functions that
+			// render and scribble on RETURNED values is memory the library handed
+			// to both of them: a result shared between callers. Anything else
+			// harness-only is a bug of mine.
+			shared := len(stacks) >= 2
+			var tops []string
+			for _, st := range stacks {
+				ok := false
+				for _, fn := range st {
+					if resultFunc(fn) {
+						ok = true
+						tops = append(tops, fn[strings.LastIndex(fn, "/")+1:])
+						break
+					}
+					if !strings.HasPrefix(fn, "runtime.") && !strings.HasPrefix(fn, "reflect.") && !strings.HasPrefix(fn, "strconv.") && !strings.HasPrefix(fn, "strings.") {
+						break
+					}
+				}
+				if !ok {
+					shared = false
+				}
+			}
+			if !shared {
+				harnessOnly++
+				continue
+			}
+			sort.Strings(tops)
+			classes = append(classes, "race:result-shared-between-callers@"+strings.Join(tops, "+"))
 			continue
 		}
 		if len(fr) == 0 {
